@@ -7,6 +7,7 @@
   File formats (FITS table, DS9 text, pickle) are tied by `harness/corr_C12.py`.
 -/
 import Aegean.Model.C12
+import Aegean.Model.C12Hand
 import Aegean.Spec.C12
 import Aegean.Proofs.C12Nuniq
 import Aegean.Properties.C08
@@ -16,16 +17,19 @@ open Aegean.Model.C08 Aegean.Model.C12 Aegean.Spec.C12 Aegean.Proofs.C08
 
 /-! ### obligations on the regenerated definitions -/
 
-/-- the regenerated encoder is NUNIQ: `4·4^d + x` -/
+/-- the regenerated encoder is NUNIQ: `4·4^d + x`.  Written to survive harmless rewrites of the source (renamed
+    locals, hoisted offset, `4*4**d`, `x + …`) and the hand fallback used when `_uniq` is UNTRANSLATABLE. -/
 theorem encode_eq (d x : Nat) : Gen.C12.encode d x = 4 ^ (d + 1) + x := by
   first
     | rfl
-    | (simp only [Gen.C12.encode]; omega)
-    | (simp only [Gen.C12.encode]; rw [Nat.pow_succ]; omega)
+    | (simp only [Gen.C12.encode, encodeHand]; done)
+    | (simp only [Gen.C12.encode, encodeHand]; omega)
+    | (simp only [Gen.C12.encode, encodeHand, Nat.pow_succ]; omega)
+    | (simp only [Gen.C12.encode, encodeHand]; rw [Nat.pow_succ]; omega)
 
 /-- the regenerated loop visits exactly the levels `1 … maxdepth` -/
 theorem levels_spec (m d : Nat) : d ∈ Gen.C12.levels m ↔ (1 ≤ d ∧ d ≤ m) := by
-  simp only [Gen.C12.levels, Py.range, Nat.one_ne_zero, if_false, Nat.div_one, Nat.mul_one, List.mem_map,
+  simp only [Gen.C12.levels, levelsHand, Py.range, Nat.one_ne_zero, if_false, Nat.div_one, Nat.mul_one, List.mem_map,
     List.mem_range]
   constructor
   · rintro ⟨k, hk, rfl⟩
